@@ -222,3 +222,15 @@ MUTANTS += [
  ('C17', 'datafind-regress-first-record', 'FileStorage/fspack.py', None, None),
 ]
 MUTANTS = [m for m in MUTANTS if m[3] is not None]
+MV = 'mvccadapter.py'
+MUTANTS += [
+ # schedule-dependent changes: visible only to the thread cases (vlib/sched.py)
+ ('C02', 'T-poll-ignores-instance-ltid', MV, "            self._start = p64(u64(max(ltid, self._ltid)) + 1)", "            self._start = p64(u64(ltid) + 1)"),
+ ('C02', 'T-mapping-finish-callback-last', 'MappingStorage.py', "        tid = self._tid\n        func(tid)\n\n        tdata = self._tdata", "        tid = self._tid\n\n        tdata = self._tdata"),
+ ('C02', 'T-mapping-finish-unlocked', 'MappingStorage.py', "    # ZODB.interfaces.IStorage\n    @ZODB.utils.locked(opened)\n    def tpc_finish(self, transaction, func=lambda tid: None):", "    # ZODB.interfaces.IStorage\n    def tpc_finish(self, transaction, func=lambda tid: None):"),
+ ('C02', 'T-invalidate-finish-skips-lock-and-last-instance', MV, "        with self._lock:\n            for instance in self._instances:\n                if instance is not committing_instance:\n                    instance._invalidate(tid, oids)", "        for instance in list(self._instances)[:-1] or self._instances:\n            if instance is not committing_instance:\n                instance._invalidate(tid, oids)"),
+ ('C03', 'T-fs-commit-lock-not-taken', FS, None, None),
+ ('C20', 'T-base-new-oid-unlocked', 'BaseStorage.py', "        with self._lock:\n            last = self._oid\n            d = byte_ord(last[-1])", "        if 1:\n            last = self._oid\n            d = byte_ord(last[-1])"),
+ ('C20', 'T-mapping-new-oid-unlocked', 'MappingStorage.py', "    @ZODB.utils.locked(opened)\n    def new_oid(self):", "    def new_oid(self):"),
+]
+MUTANTS = [m for m in MUTANTS if m[3] is not None]
